@@ -7,6 +7,7 @@ from ..lib_sem import run_paths, child_value, canon, INTSZ, UNSIGNED
 from ..lib_types import Types
 from ..x86 import Unknown, lo, ext, C
 from .c01 import wrap, report
+from ..lib_c16_qual import m_copy_object, COPY_MODELS
 
 U = 'codegen.c'
 SIZES = (('char', 1), ('short', 2), ('int', 4), ('long', 8), ('uchar', 1), ('ushort', 2), ('uint', 4), ('ulong', 8), ('ptr', 8), ('bool', 1),
@@ -230,7 +231,7 @@ def r161(P, rep):
     for lkind in ('ND_VAR', 'ND_DEREF', 'ND_MEMBER'):
         for tname in ('int', 'long', 'char', 'ptr', 'uchar', 'float', 'double'):
             for atomic in (True, False):
-                it = Interp(P, pu, {'opaque': ['new_unique_name', 'error_tok'], 'models': {'new_lvar': lambda it_, ctx, n, a: Obj('Obj', lazy=False, label=ctx.fresh('tmp'), fields={'ty': a[1], 'name': a[0]})}})
+                it = Interp(P, pu, {'opaque': ['new_unique_name', 'error_tok'], 'models': {'memcpy': m_copy_object, 'memmove': m_copy_object, 'new_lvar': lambda it_, ctx, n, a: Obj('Obj', lazy=False, label=ctx.fresh('tmp'), fields={'ty': a[1], 'name': a[0]})}})
                 box = {}
 
                 def mk(ctx):
@@ -728,7 +729,7 @@ def agg_admitted(T, kind, tyk, size):
     """does add_type let the builtin `kind` through on an _Atomic struct/union object of `size` bytes (True / False), None = not interpretable"""
     E = T.E
     fields = ('cas_addr', 'cas_old', 'cas_new') if kind == 'ND_CAS' else ('lhs', 'rhs')
-    it = T.interp(opaque=['error_tok'])
+    it = T.interp(opaque=['error_tok'], models=dict(COPY_MODELS))
 
     def mk(ctx):
         it.ctx = ctx
@@ -881,6 +882,89 @@ def agg_exch_state(s, w):
     return None
 
 
+def r1612(cg, rep):
+    """stores. `atomic_store(p, v)` of include/stdatomic.h and a plain assignment to an _Atomic object are the same ND_ASSIGN. Every
+    read-modify-write of this property (the cmpxchg of R16.3, the xchg of R16.4, the retry loops built from them) is linearizable only against
+    stores that put the whole new value into the object with ONE instruction: a store emitted as several narrower moves lets a concurrent
+    compare-exchange or exchange observe - and hand back through the expected-value object, or install over - a mixture of two values that
+    no thread ever stored. On x86-64 a naturally aligned mov of 1, 2, 4 or 8 bytes is indivisible. Decided per type class of the object
+    (is_atomic set), for every size one instruction covers: exactly one store instruction into the object, of the object's width, carrying the
+    value of the right operand (for struct/union operands, which are evaluated to their address: the sizeof(object) bytes there)."""
+    rep.rule('R16.12', 'a store to an _Atomic object of 1, 2, 4 or 8 bytes (assignment / atomic_store; scalar, struct or union) is emitted as exactly one store instruction of the object width carrying the whole value - never as several narrower moves, which a concurrent compare-exchange, exchange or load observes half-done', floor=14)
+    where = '%s:%d' % (U, cg.cu.fn('gen_expr').line)
+    A = ('addr', ('r', 'lhs&', 64), 0)
+    N = ('addr', ('r', 'rhs', 64), 0)
+
+    def explore(cat, size, lkind):
+        def mk(ctx):
+            n = cg.node('node', 'ND_ASSIGN')
+            b = cg.tcell('obj', only=(cat,), **({'agg_sizes': (size,)} if cat in ('struct', 'union') else {}))
+            for c in b.cell.cands:
+                if isinstance(c, Obj):
+                    c.fields['is_atomic'] = 1
+            n.fields['ty'] = b
+            n.fields['lhs'] = cg.node('lhs', lkind, ty=b)
+            n.fields['rhs'] = cg.node('rhs', ty=b)
+            return n
+        return run_paths(cg, 'gen_expr', mk)
+
+    def judge(pack, w, want):
+        """(tag, message, trace) of the first bad state | None; raises Unknown when not interpretable"""
+        nstates = 0
+        for ctx, tr, finals, cats, it in pack:
+            if isinstance(finals, Exception):
+                raise Unknown(str(finals))
+            for st in finals:
+                nstates += 1
+                into = [x for x in st.stores if isinstance(x[0], tuple) and x[0][0] == 'addr' and x[0][1] == A[1]]
+                if len(into) != 1:
+                    widths = sorted({x[1] for x in into})
+                    return ('store-in-several-instructions' if into else 'no-store'), ('%d store instructions (of %s bits) are emitted into the %d-bit object: another thread\'s compare-exchange / exchange / load between two of them sees a value that was never stored'
+                                                                                     % (len(into), '/'.join(map(str, widths)) or '-', w)), tr.text()
+                a, sw, v, k = into[0]
+                if a != A or sw != w:
+                    return 'store-width', 'the store writes %d bits at %r; the object has %d bits at %r' % (sw, a, w, A), tr.text()
+                if bitsof(w, v) != want:
+                    return 'stored-value', 'the single store writes %r, expected the value of the right operand %r' % (bitsof(w, v), want), tr.text()
+        if nstates == 0:
+            raise Unknown('no returning path of gen_expr')
+        return None
+    LK = ('ND_VAR', 'ND_DEREF')        # `x = v` and `*p = v` (what atomic_store expands to)
+
+    def first_bad(cat, size, want):
+        for lkind in LK:
+            bad = judge(explore(cat, size, lkind), size * 8, want)
+            if bad:
+                return bad[0], '%s [lvalue kind %s]' % (bad[1], lkind), bad[2]
+        return None
+    for cat, size in SIZES:
+        w = size * 8
+        key = '%s:gen_expr:ND_ASSIGN/atomic-%s' % (U, cat)
+        try:
+            bad = first_bad(cat, size, value_bits('rhs', cat, w))
+        except Unknown as e:
+            rep.undecided('R16.12', key, 'emitted code not interpretable: %s' % e, where=where); continue
+        rep.ob('R16.12', key + (':' + bad[0] if bad else ''), bad is None, 'assignment to an _Atomic %s: %s' % (cat, bad[1] if bad else ''), where=where, facts={'trace': bad[2]} if bad else {})
+    for aname, tyk in AGG_KINDS:
+        key = '%s:gen_expr:ND_ASSIGN/atomic-%s' % (U, aname)
+        bads = []
+        undec = None
+        for size in (1, 2, 4, 8):
+            try:
+                bad = first_bad(aname, size, ('mem', size * 8, N))
+            except Unknown as e:
+                undec = undec or 'emitted code for a %d-byte %s not interpretable: %s' % (size, aname, e); continue
+            if bad:
+                bads.append((size, bad))
+        if bads:
+            tag = bads[0][1][0]
+            rep.ob('R16.12', key + ':' + tag, False, 'assignment / atomic_store to an _Atomic %s of %s bytes; for %d bytes: %s' % (aname, ', '.join(str(sz) for sz, b_ in bads if b_[0] == tag), bads[-1][0], bads[-1][1][1]), where=where, facts={'trace': bads[-1][1][2]})
+        elif undec:
+            rep.undecided('R16.12', key, undec, where=where)
+        else:
+            rep.ob('R16.12', key, True, '', where=where)
+
+
 def r166(P, rep):
     rep.rule('R16.6', '_Atomic is recorded on a private copy of the type, never on the shared type objects; CAS/exchange operands are converted to the type of the atomic object', floor=25)
     pu = P.unit('parse.c')
@@ -899,6 +983,10 @@ def r166(P, rep):
                     break
                 if st.kind == 'BinaryOperator' and st.opcode == '=' and st.inner[0].src() == base and st.inner[1].strip().kind == 'CallExpr' and st.inner[1].strip().callee() == 'copy_type':
                     ok = True
+                if st.kind == 'DeclStmt':       # `Type *q = copy_type(ty); q->is_atomic = ...`
+                    for v in st.inner:
+                        if v.kind == 'VarDecl' and v.name == base and v.inner and v.inner[-1].strip().kind == 'CallExpr' and v.inner[-1].strip().callee() == 'copy_type':
+                            ok = True
             rep.ob('R16.6', 'parse.c:declspec:is_atomic-set-on-a-copy', ok, '`%s->is_atomic` is set without `%s = copy_type(%s)` before it in the same block: the shared ty_int/... object would become atomic for every later declaration' % (base, base, base), where='parse.c:%d' % a.line)
     if n == 0:
         rep.undecided('R16.6', 'parse.c:declspec', 'no assignment to is_atomic found')
@@ -907,7 +995,7 @@ def r166(P, rep):
     E = T.E
     for kind, fields, obj_field, val_field in (('ND_CAS', {'cas_addr': 'plong', 'cas_old': 'plong', 'cas_new': 'int'}, 'cas_addr', 'cas_new'),
                                                ('ND_EXCH', {'lhs': 'plong', 'rhs': 'int'}, 'lhs', 'rhs')):
-        it = T.interp(opaque=['error_tok'])
+        it = T.interp(opaque=['error_tok'], models=dict(COPY_MODELS))
         box = {}
 
         def mk(ctx, kind=kind, fields=fields):
@@ -936,10 +1024,11 @@ def run(P, rep, tier):
                        'plus the header mapping: the macros of include/stdatomic.h are evaluated under interference schedules, untyped on a 64-bit object (R16.5) and with C types on objects of every integer width and signedness, where the compare-exchange builtin refreshes exactly sizeof(object) bytes of the expected-value object (R16.8). '
                        'float/double atomic objects are covered by R16.1 (rewrite) and R16.3/R16.4 (bit patterns moved between %xmm0 and the general register the instruction uses). '
                        'R16.8 evaluates every macro twice: with the object designated through a pointer to the _Atomic-qualified type (op= on *(obj) is then the indivisible rewrite of R16.1) and through a pointer to the unqualified type (op= is a plain load/modify/store there; only the builtins are indivisible). '
-                       'R16.9: every atomic_* typedef of C11 7.17.6 carries _Atomic on the paired direct type. R16.10: struct/union objects are either rejected by add_type or the instruction works on the bytes of the operands, not on the addresses aggregates are evaluated to. Linearizability under interleavings is a property of schedules and is not decided.')
+                       'R16.9: every atomic_* typedef of C11 7.17.6 carries _Atomic on the paired direct type. R16.10: struct/union objects are either rejected by add_type or the instruction works on the bytes of the operands, not on the addresses aggregates are evaluated to. R16.12: a store to an atomic object of 1/2/4/8 bytes (scalar, struct, union) is one store instruction of the object width. R16.11: the qualifier survives type derivation - the type constructors, add_type on every lvalue shape, typeof / typedef names / pointer declarators (declspec and declarator interpreted on token sequences with an atomic type in scope), and no assignment clears is_atomic. Linearizability under interleavings is a property of schedules and is not decided.')
     rep.assumptions += ['x86-64: `lock cmpxchg` and `xchg` with a memory operand are indivisible (Intel SDM vol. 3 ch. 8)', 'children satisfy the register convention (induction)']
     r163(cg, rep)
     r1610(P, cg, rep)
+    r1612(cg, rep)
     r161(P, rep)
     r165(P, rep)
     r165_hygiene(P, rep)
@@ -947,6 +1036,8 @@ def run(P, rep, tier):
     r166(P, rep)
     r166_forms(P, rep)
     r169(P, rep)
+    from ..lib_c16_qual import r1611
+    r1611(P, rep)
     from ..lib_types import r_atomic_builtin_operands
     rep.rule('R16.7', 'add_type converts the value operand of the exchange / compare-and-swap builtins to the type of the atomic object for every arithmetic operand type and gives the exchange the object\'s type: the value the indivisible instruction stores is the converted operand (a floating operand left unconverted is never moved into the register the instruction uses)', floor=200)
     r_atomic_builtin_operands(P, rep, 'R16.7')
@@ -981,7 +1072,7 @@ def r166_forms(P, rep):
     where = 'parse.c:%d' % u.fn('declspec').line
     tw = c08.TokenWorld(P, u)
     tyglob = c08.type_globals(P)
-    cfg = {'models': tw.models(), 'globals': {g: (lambda ctx, g=g: Obj('Type', lazy=False, label=g, fields=dict(tyglob[g]))) for g in tyglob}}
+    cfg = {'models': dict(tw.models(), **COPY_MODELS), 'globals': {g: (lambda ctx, g=g: Obj('Type', lazy=False, label=g, fields=dict(tyglob[g]))) for g in tyglob}}
     it = c08._LocalEnumInterp(P, u, cfg)
     it.local_enums = c08._local_enums(u.fn('declspec'))
     bases = {'char': ('char',), 'short': ('short',), 'int': ('int',), 'long': ('long',), 'unsigned': ('unsigned',), 'unsigned long': ('unsigned', 'long'), '_Bool': ('_Bool',)}
